@@ -380,7 +380,7 @@ MDNS_OUT = [
     {"outcome": "ok", "v4": ["10.1.0.1"]}, {"outcome": "ok", "v6": ["fd00::aa"]}, {"outcome": "ok", "v4": ["10.1.0.1", "10.1.0.2"], "v6": ["fd00::aa", "fe80::5%2"]},
     {"outcome": "none"}, {"outcome": "raise"}, {"outcome": "ok", "v4": [], "v6": []}, {"outcome": "ok", "v4": ["10.1.0.9"], "v6": ["fd00::a9"], "complete": True},
 ]
-DNS_OUT = [["ok", ["10.2.0.1"]], ["ok", ["fd00::bb", "10.2.0.2"]], ["ok", ["10.2.0.3", "10.2.0.4", "fd00::cc"]], ["empty"], ["error"]]
+DNS_OUT = [["ok", ["10.2.0.1"]], ["ok", ["fd00::bb", "10.2.0.2"]], ["ok", ["10.2.0.3", "10.2.0.4", "fd00::cc"]], ["empty"], ["error"], ["ok", ["fe80::9%4", "10.2.0.5"]], ["ok", ["fe80::a%12"]]]
 
 
 @st.composite
